@@ -49,6 +49,34 @@ def main():
         meta["tests_with_change"] = old_meta["tests_with_change"]
     if old_meta.get("checks"):
         meta["earlier_check_results"] = (old_meta.get("earlier_check_results") or []) + [old_meta["checks"]]
+    if not os.path.isdir(wt):
+        # the scratch worktree is gone (removed after the confirmation): only re-run the checks against
+        # the kept patch
+        src = dst
+        results = {}
+        copy = f"/dev/shm/seeded-{sid}/repo"
+        shutil.rmtree(os.path.dirname(copy), ignore_errors=True)
+        os.makedirs(os.path.dirname(copy))
+        sh(f"rsync -a --exclude .git /repo/ {copy}/")
+        rc, out = sh(f"patch -p1 -s -i {src}/patch.diff", cwd=copy)
+        if rc != 0:
+            print("patch does not apply to the copy of /repo:", out)
+            return 2
+        try:
+            for c in checks:
+                env = dict(os.environ, ALDYSIM_NO_EVIDENCE="1", ALDYSIM_REPLAY_DIR=f"/dev/shm/seeded-{sid}/replays",
+                           ALDYSIM_REPO=copy)
+                rc, out = sh(f"/venv/bin/python {VERIF}/check.py {c} --tier {tier} --no-selftest", env=env)
+                clauses = [l.strip() for l in out.splitlines() if l.strip().startswith("clause:")]
+                results[c] = {"exit": rc, "clauses": sorted(set(clauses))[:4]}
+                print("check", c, "exit", rc, sorted(set(clauses))[:3])
+        finally:
+            shutil.rmtree(os.path.dirname(copy), ignore_errors=True)
+        old_meta["earlier_check_results"] = (old_meta.get("earlier_check_results") or []) + [old_meta.get("checks", {})]
+        old_meta["checks"] = results
+        old_meta["detected"] = any(r["exit"] == 1 for r in results.values())
+        json.dump(old_meta, open(os.path.join(dst, "meta.json"), "w"), indent=1)
+        return 0
     rc, out = sh("git status --porcelain | grep -v '^??' ; git checkout -- .", cwd=wt)
     rc, out = sh(f"git apply --check {src}/patch.diff", cwd=wt)
     if rc != 0:
